@@ -285,7 +285,9 @@ _ATOMS = re.compile(r"\[[^\]]*\]\([^)]*\)|`[^`]*`\S*|\{%.*?%\}|\S+")  # words, w
 DOC_SENTS = ["Aaaa bbbb cccc dddd.", "Ee ff.", "Gggggggggg hhhhhhhhhh iiiiiiiiii jjjjjjjjjj kkkkkkkkkk.", "Ll mm nn oo pp qq rr ss tt?", "Uu {% t %} vv.",
              "Ww\\\nxx yy.", "Zz `c d.` e.",
              # appended later: sentences that START with a multi-word atomic construct
-             "[A link with text](u) is here.", "`pip install x` runs now.", "{% t a=\"b c\" %} ends here."]
+             "[A link with text](u) is here.", "`pip install x` runs now.", "{% t a=\"b c\" %} ends here.",
+             # appended later: a sentence end followed by a closing quote / bracket that is set off by a space
+             "\u00ab Bonjour tous et bienvenue. \u00bb", "( down at the very bottom. )", "\u201c it was all quite fine. \u201d", "' so they all said then. '"]
 
 
 class Docs(Space):
